@@ -1891,3 +1891,43 @@ def tester_disconnect(c):
         answer_read(c, memh, 0, 'start', 'M', 2, tag='@new-read')
         ack_write(c, memh, 1, 'start', 1, {}, tag='@new-write')
         c.ensure('new-requests-reported-once', "len(sent('new_read_cb')) == 1 and len(sent('new_write_cb')) == 1 and len(sent('old_cb')) == 0")
+
+
+@contract('C06', 'deck.read-from-inside-completion-callback', [DM + ':DeckMemory.read', DM + ':DeckMemoryManager._read', DM + ':DeckMemoryManager._new_data',
+                                                              DM + ':DeckMemoryManager._new_data_failed'],
+          clause='afterwards further requests are still served, also from inside the notification: the next read of a deck memory, requested from the '
+                 'completion (or failure) callback of the previous one, is accepted and transmitted, and no pending-read record is left behind',
+          bounded='two chained reads of one deck memory; the first ends with data or with a failure')
+def deck_chained_reads(c):
+    memh = c.ext('memh', returns={'read': True})
+    mgr = c.new(DM + ':DeckMemoryManager', 7, 0x19, 0x10000, memh)
+    c.int('base', 0x10000000, 2 ** 31), c.int('a1', 0, 0x0FFFFFF0), c.int('a2', 0, 0x0FFFFFF0)
+    dm = c.new(DM + ':DeckMemory', mgr, 0x1100)
+    c.set(dm, '_base_address', c.get('base'))
+    c.set(dm, '_bit_field1', 1 | 2 | 4 | 8)
+    c.let('mgr', mgr), c.let('dm', dm)
+    outcome = c.choice('outcome', ['data', 'failed'])
+    second_ok, second_bad = c.ext('second_ok'), c.ext('second_failed')
+    fired = []
+
+    def chain(_i, args, _k):
+        if not fired:
+            fired.append(1)
+            c.invoke((dm, 'read'), c.get('a2'), 2, second_ok, second_bad)      # the application asks for the next block at once
+        return None
+    first_ok = c.ext('first_ok', returns={'()': chain})
+    first_bad = c.ext('first_failed', returns={'()': chain})
+    c.call((dm, 'read'), c.get('a1'), 3, first_ok, first_bad)
+    c.require('raised is None')
+    c.reset_trace()
+    d1 = c.bytes('d1', 3)
+    c.call((mgr, '_new_data' if outcome == 'data' else '_new_data_failed'), mgr, c.snapshot('m1', 'base + a1'), d1)
+    c.ensure('first-notification-and-chained-request-accepted', "raised is None and len(sent('first_ok' if %r == 'data' else 'first_failed')) == 1" % outcome)
+    c.ensure('second-read-transmitted-at-its-mapped-address', "len(sent('memh.read')) == 1 and sent('memh.read')[0][1] == (mgr, base + a2, 2)")
+    c.reset_trace()
+    d2 = c.bytes('d2', 2)
+    c.call((mgr, '_new_data'), mgr, c.snapshot('m2', 'base + a2'), d2)
+    c.ensure('second-read-completes-once-with-its-data', "raised is None and len(sent('second_ok')) == 1 and sent('second_ok')[0][1] == (a2, d2) and len(sent('second_failed')) == 0")
+    c.reset_trace()
+    c.call((dm, 'read'), c.get('a1'), 1, c.ext('third_ok'), c.ext('third_failed'))
+    c.ensure('no-pending-read-record-left-behind', "raised is None and len(sent('memh.read')) == 1")
